@@ -87,12 +87,13 @@ impl LayerContents {
             layers.push(Layer::default());
         }
 
-        // move the default layer to the front
+        // move the default layer to the front, keeping the order of the others
         let default_idx = layers
             .iter()
             .position(|l| l.path.to_str() == Some(DEFAULT_GLYPHS_DIRNAME))
             .ok_or(FontLoadError::MissingDefaultLayer)?;
-        layers.rotate_left(default_idx);
+        let default_layer = layers.remove(default_idx);
+        layers.insert(0, default_layer);
 
         // record the directories that are taken by the non-default layers, as
         // `new_layer` does, so that later additions and renames avoid them
